@@ -114,10 +114,13 @@ def equal(d1, d2):
     equals every descriptor (of its class) over the same atoms."""
     c1, t1, p1 = d1
     c2, t2, p2 = d2
+    if p1 is None or p2 is None:
+        # literally as C04 states it: 'a descriptor with unspecified parity equals every descriptor over the
+        # same atoms' - the class is not compared (the library does not compare it either; demanding it would
+        # ask more than the property says)
+        return sorted(map(repr, t1)) == sorted(map(repr, t2))
     if c1 != c2:
         return False
-    if p1 is None or p2 is None:
-        return sorted(map(repr, t1)) == sorted(map(repr, t2))
     return same(d1, d2)
 
 
